@@ -27,6 +27,10 @@ func c07InstallHooks() func() {
 		return ap.GetItemByType(t)
 	}
 	ap.JSONItemUnmarshal = func(t ap.ActivityVocabularyType, v *fastjson.Value, it ap.Item) error {
+		if t != "Custom" {
+			// a typical extension knows its own types only; it must never be consulted for vocabulary names
+			return fmt.Errorf("extension hook called for %q", t)
+		}
 		return ap.OnObject(it, func(o *ap.Object) error { return ap.JSONLoadObject(v, o) })
 	}
 	ap.IsNotEmpty = func(it ap.Item) bool {
